@@ -3,3 +3,6 @@ open PhQVerif Generated
 #print axioms PhQVerif.Props.C05.inverse_pairs
 #eval s!"COUNT C05.inverse_pairs {InversePairs.rows.length}"
 #eval s!"SAMPLE {InversePairs.p0.id}"
+#print axioms PhQVerif.Props.C05.round_trip_few_ulps
+#print axioms PhQVerif.Props.C05.rounding_counts
+#eval s!"COUNT C05.composite_slots_in_positive_fragment {(InversePairs.rows.flatMap fun p => p.comp.filterMap (posFrag 53)).length}"
